@@ -286,7 +286,13 @@ func varlinkE2E(cfg *runCfg, o *Obligation, dir string) (bool, string) {
 	defer e2eCache.Unlock()
 	if !e2eCache.done {
 		e2eCache.done = true
-		tmpl, err := os.ReadFile(filepath.Join(cfg.verif, "replay_templates", "varlink_e2e_test.go.tmpl"))
+		name := "varlink_e2e_test.go.tmpl"
+		switch cfg.prop {
+		case "C14", "C15", "C17", "C18", "C19":
+			// lifecycle / cancellation / address scenarios (oracles from C14, C15, C17, C18, C19)
+			name = "varlink_lifecycle_test.go.tmpl"
+		}
+		tmpl, err := os.ReadFile(filepath.Join(cfg.verif, "replay_templates", name))
 		if err != nil {
 			e2eCache.err = err
 		} else {
@@ -297,7 +303,7 @@ func varlinkE2E(cfg *runCfg, o *Obligation, dir string) (bool, string) {
 		}
 	}
 	var rep strings.Builder
-	fmt.Fprintf(&rep, "property-level scenarios (not derived from this obligation's model): real service loop and real client over a unix socket, oracles from the statements of C01-C04, C10-C13\nscenario test: %s\n", e2eCache.file)
+	fmt.Fprintf(&rep, "property-level scenarios (not derived from this obligation's model): real service and real client over unix sockets / pipes, oracles written from the property statements (C01-C04, C10-C13 request/reply scenarios; C14, C15, C17, C18, C19 lifecycle scenarios)\nscenario test: %s\n", e2eCache.file)
 	confirmed := false
 	for _, l := range strings.Split(e2eCache.out, "\n") {
 		if strings.HasPrefix(l, "REPLAY-FAIL prop="+cfg.prop+" ") {
